@@ -56,3 +56,13 @@ Proof. exact parent_is_innermost. Qed.
 
 Print Assumptions C04_child_inside_parent.
 Print Assumptions C04_parent_is_innermost.
+
+(* K3 tripwire for the hand-written models this file's theorems are about: the source text of the modelled functions is
+   the text the models were last reconciled with (Model/Fingerprints.v, written by tools/update_fingerprints.sh after clean
+   correspondence runs; Gen/Fingerprints_gen.v is regenerated from /repo on every run).  When this breaks, the functions
+   were edited: the check widens its search for a failing input and reports the broken obligation either way. *)
+From Coq Require Import String.
+From Clip Require Import Gen.Fingerprints_gen Model.Fingerprints.
+Theorem C04_modelled_source_unchanged :
+  fps_agree gen_fingerprints ["PolyPathBase.AddChild"; "PolyPathBase.IsHole"; "PolyPathBase.Level"; "PolyPathBase.Count"; "PolyPathBase.Clear"]%string = true.
+Proof. vm_compute. reflexivity. Qed.
